@@ -43,6 +43,12 @@ enum Op {
     TxtOther,
     Idle1100,
     VerifyShort,
+    // interface loss during probing (part "probing-interrupted-by-interface-loss" only)
+    If0Gone,
+    If0Back,
+    Idle5100,
+    Idle400,
+    Idle700,
 }
 /// Events of the focused cache-flush part: a flushing record moves the expiry of its older siblings
 /// to one second from now, which is time-driven work the daemon must wake itself for.
@@ -200,6 +206,25 @@ fn exec(seq: &[Op], dense: bool, horizon_ms: u64, trace: bool, fam: u8) -> Exec 
                 t.retain(|x| x.index != IF1);
                 w.ds[0].ctl.set_intfs(t);
             }
+            Op::If0Gone => {
+                let mut t = w.ds[0].ctl.get_intfs();
+                t.retain(|x| x.index != IF0);
+                w.ds[0].ctl.set_intfs(t);
+            }
+            Op::If0Back => {
+                let mut t = w.ds[0].ctl.get_intfs();
+                if !t.iter().any(|x| x.index == IF0) {
+                    t.extend(match fam {
+                        0 => lay_v4(),
+                        1 => lay_v6(),
+                        _ => lay_dual(),
+                    });
+                }
+                w.ds[0].ctl.set_intfs(t);
+            }
+            Op::Idle5100 => adv(&mut w, 5100),
+            Op::Idle400 => adv(&mut w, 400),
+            Op::Idle700 => adv(&mut w, 700),
             Op::Idle100 => adv(&mut w, 100),
             Op::Idle1s => adv(&mut w, 1000),
             Op::Idle1100 => adv(&mut w, 1100),
@@ -353,7 +378,7 @@ pub fn check(tier: &str) -> i32 {
     rep.assume("differential oracle: the run loop re-tests every time condition each iteration, so a run woken every virtual millisecond does each piece of time-driven work in the first millisecond it is enabled");
     rep.assume("spin = more than 3 consecutive iterations asking for a wake-up <= now+1 ms while producing nothing, or more than 20 iterations in a silent virtual second");
     let depth = if thorough { 3 } else { 2 };
-    let horizon = if thorough { 14_000 } else { 8_000 };
+    let horizon = if thorough { 14_000 } else { 6_000 };
     let mut nseq = 0u64;
     let mut b = 1u64;
     for _ in 0..=depth {
@@ -390,13 +415,39 @@ pub fn check(tier: &str) -> i32 {
     };
     rep.run_part(&fams, Duration::from_secs(if thorough { 3600 } else { 50 }));
     rep.require("announced-service-on-each-address-family", "log_entries_compared");
+    // the interface goes away while the service is probing on it and comes back later
+    let gaps: Vec<Op> = if thorough { vec![Op::Idle100, Op::Idle400, Op::Idle700] } else { vec![Op::Idle100, Op::Idle700] };
+    let outs: Vec<Vec<Op>> = if thorough { vec![vec![Op::Idle1100], vec![Op::Idle1100, Op::Idle1s], vec![Op::Idle1100, Op::Idle1s, Op::Idle1s, Op::Idle1s]] } else { vec![vec![Op::Idle1100], vec![Op::Idle1100, Op::Idle1s]] };
+    let (ng, no) = (gaps.len() as u64, outs.len() as u64);
+    let lhor = if thorough { 8_000 } else { 5_000 };
+    let lseq = move |i: u64| -> (Vec<Op>, u8) {
+        // the checks fall on whole seconds from 5 s on: the registration is placed 0.1 / 0.4 / 0.7 s after
+        // one, the interface is gone 100 ms later, so that the next check finds it gone mid-probing
+        let mut v = vec![Op::IpCheck1, Op::Idle5100, gaps[(i % ng) as usize], Op::Register, Op::Idle100, Op::If0Gone];
+        v.extend(outs[((i / ng) % no) as usize].clone());
+        v.push(Op::If0Back);
+        // the check that finds it back is the last one for a long time, or they go on every second
+        if (i / (ng * no)) % 2 == 1 {
+            v.extend([Op::Idle1100, Op::IpCheckHuge]);
+        }
+        (v, (i / (ng * no * 2)) as u8)
+    };
+    let lseq2 = lseq.clone();
+    let loss = FnPart {
+        name: "probing-interrupted-by-interface-loss".into(),
+        rule: format!("interface check every second; a service is registered {} after a check and its interface disappears 0.1 s later (the next check finds it gone before, in the middle of, or after the probing), to come back {} later (then: checks go on every second | the interval is made huge once the interface is back) x (IPv4-only | IPv6-only | dual-stack interface), {} s of silence; same comparison (the interrupted probing must be resumed when due, not at the next unrelated wake-up)", if thorough { "0.2 / 0.5 / 0.8 s" } else { "0.2 / 0.8 s" }, if thorough { "1.1 / 2.1 / 4.1 s" } else { "1.1 / 2.1 s" }, lhor / 1000),
+        n: ng * no * 2 * 3,
+        describe: Box::new(move |i| format!("{:?}", lseq2(i))),
+        run: Box::new(move |i, tr| { let (v, fam) = lseq(i); run_case_fam(&v, lhor, tr, fam) }),
+    };
+    rep.run_part(&loss, Duration::from_secs(120));
     // longer horizon for single events (record TTLs, 75-minute defaults)
     let long = FnPart {
         name: "long-horizon-singles".into(),
         rule: "every pair (Browse or Register or ResolveHost, X) for every event X, 130 s of silence (covers the 120 s host TTL), same comparison".into(),
         n: 3 * OPS.len() as u64,
         describe: Box::new(|i| format!("{:?}", [[Op::Browse, Op::Register, Op::ResolveHost][(i % 3) as usize], OPS[(i / 3) as usize]])),
-        run: Box::new(move |i, tr| run_case(&[[Op::Browse, Op::Register, Op::ResolveHost][(i % 3) as usize], OPS[(i / 3) as usize]], if thorough { 130_000 } else { 30_000 }, tr)),
+        run: Box::new(move |i, tr| run_case(&[[Op::Browse, Op::Register, Op::ResolveHost][(i % 3) as usize], OPS[(i / 3) as usize]], if thorough { 130_000 } else { 16_000 }, tr)),
     };
     rep.run_part(&long, Duration::from_secs(if thorough { 1800 } else { 40 }));
     // the interface check after its interval was changed at run time
